@@ -1,5 +1,5 @@
 """C07 -- acceleration shortcuts never change an answer (spec/Slab.tla culling Mech, spec/Culling.tla)."""
-from lib import build, tlc, replay, report
+from lib import build, tlc, replay, report, gen
 
 
 def run(tier):
@@ -14,18 +14,21 @@ def run(tier):
     c.add_tlc(r2, "curved / spherical / dateline trenches and variable depth surfaces (differential only)")
     b2 = list(dict.fromkeys(r2.behaviours))
     if quick: b2 = [b for i, b in enumerate(b2) if i % 2 == 0 or '"depth-surfaces"' in b[:300]]
-    res = replay.replay(exe, beh + b2, shards=16, timeout_s=300)
+    b3 = gen.behaviours(c, tier, "culling")      # documents of the world-file grammar
+    res = replay.replay(exe, beh + b2 + b3, shards=16, timeout_s=300)
     c.add_replay(res, "every query answered twice: shortcuts as built vs neutralised (GWB_VERIF hook), bitwise")
     c.sample(beh[0][:1500] + "..."); c.sample(b2[0][:1500] + "...")
     c.coverage["exhaustive"] = not quick
-    c.coverage["distinct_nontrivial"] = len(beh) + len(b2)
+    c.coverage["distinct_nontrivial"] = len(beh) + len(b2) + len(b3)
+    c.coverage["grammar_documents"] = len(b3)
     c.coverage["twin_queries"] = res.stats.get("by_check", {}).get("twin", 0)
     c.coverage["rule"] = ("straight-trench slabs and faults of Slab.tla (segment tables, thickness / truncation pairs, min depth 0 / 100 km, three "
                           "trench directions) on a grid reaching beyond the buffer; spherical trenches (oblique at 40-70 N, crossing the +-180 meridian "
                           "at 60-80 N and at the equator, along a meridian, curved with 3-4 coordinates) x dip side x 4 shapes (length 400-1500 km, dip "
                           "20-80, min depth 0-100 km) x slab/fault on a lon/lat/depth grid extending 40 / 16 degrees beyond the trench; Cartesian curved "
                           "trenches; area features of the three types with min and max depth given at points, Cartesian and spherical, probed 1 km "
-                          "around the nodal minima and maxima. non-trivial: all worlds (quick runs every third / second of them)")
+                          "around the nodal minima and maxima; plus simulated documents of the world-file grammar Gen.tla (every feature type, geometry, depth "
+                          "kind and deterministic model) on a lattice of 1106 points. non-trivial: all worlds (quick runs every third / second of them)")
     c.assumptions += ["the hook neutralises the bounding box, the length-based depth cut-off and the min/max pre-test; the nearest-triangle search of depth "
                       "surfaces is covered by C11 (exact oracle) and C19 (kd-tree)"]
     return c.finish()
